@@ -38,9 +38,10 @@ def candidate_push_edges(ctx, q):
             for s in values.subs(v):
                 t = VAL[s]
                 if t[0] == 'mu' and t[1].endswith('::push'):
-                    sites.add(t[2])
+                    st_ = VAL[t[2]]
+                    sites.add((st_[1], st_[2]))
     return q.edges(lambda ev: ev['k'] == 'ext' and ev['path'].endswith('::push') and
-                   values.SITE(ev['site'][0], ev['site'][1]) in sites), sites
+                   (ev['site'][0], 'bb%d' % ev['site'][1]) in sites), sites
 
 
 def mentions_app(v, path):
